@@ -878,7 +878,7 @@ func (in *Interp) convert(th *Thread, v Value, from, to types.Type) Value {
 				}
 				return concString(string(r))
 			}
-			panic(unsupported{"string(symbolic rune)"})
+			return in.runeToStr(x)
 		}
 		if tbasic.Kind() == types.UnsafePointer {
 			panic(unsupported{"uintptr -> unsafe.Pointer"})
